@@ -14,12 +14,14 @@ and function body.  Every read is observable:
 A Python interpreter written from the property statement (dart-sass semantics: an Environment is a chain of scopes;
 rules, @media, mixin/function/content bodies are scopes, flow-control bodies are "semi-global" scopes) predicts the
 whole trace or "undefined variable".  Because the tree under test deviates from the statement in several known ways,
-the interpreter has named DEVIATION switches (each reproduces one documented defect of rsass) and READING switches
-(places where the statement is silent and more than one behaviour is admitted).  A case whose observation equals the
-reference (under some admitted reading) holds.  Otherwise the smallest set of deviation switches that reproduces the
-observation is the signature (a known finding when it is listed in known/C16.json); an observation that no
-combination of switches reproduces is reported with an `unexplained|...` signature - that is how a *new* break of
-scoping is noticed although the unmodified tree already has scoping defects.
+the interpreter has named DEVIATION switches (each reproduces one documented defect of rsass; all off = the reference).
+A case whose observation equals the reference holds.  Otherwise the smallest set of deviation switches that reproduces
+the observation is searched - first among the switches that known/C16.json lists, then among all - and every switch of
+that set is reported as `deviation|<switch>` (a known finding when listed; the combinations that occur are too many
+to list one by one).  An observation that no combination of switches reproduces is reported with an `unexplained|...`
+signature - that is how a *new* break of scoping is noticed although the unmodified tree already has scoping defects.
+The reference semantics were cross-checked against the dart-sass expectations of sass-spec
+(libsass/variable-scoping/*, variables/semi_global, non_conformant/scope/*).
 """
 import itertools
 import re
@@ -51,7 +53,7 @@ LEVEL_NOTE = ('Trusted: the interpreter in this file (scope chain, semi-global f
               'mixins/functions/content blocks), the probe mixin / trace function (they rely on `!global` writes from a '
               'callable and on integer addition) and the regular expressions that read the probes back.')
 TECHNIQUE = 'runtime monitoring: generated programs judged by a reference interpreter with named deviation switches on the emitted read trace'
-ASSUMPTIONS = ['the lifetime of a loop-body scope (one per loop as in dart-sass, or one per iteration) is not fixed by the statement: both are admitted',
+ASSUMPTIONS = ['one scope per @each/@for/@while loop (not per iteration), as in dart-sass and as sass-spec libsass/variable-scoping/root-scope expects',
                'mixins and functions are declared at the top level only; `!default !global` together is not generated',
                'a compile error that is not an undefined-variable error, where the model expects an undefined-variable error, is undecided']
 
@@ -491,8 +493,10 @@ def facts(prog):
             kinds.add('include-with-content' if s.get('content') is not None else 'include-plain')
             if s['m'] != 'c0' and path:
                 nest.add('%s>mixin' % path[-1])
-        if k == 'assign' and s['e'][0] == 'call' and path:
-            nest.add('%s>function' % path[-1])
+        if k == 'assign' and s['e'][0] == 'call':
+            kinds.add('function-call')
+            if path:
+                nest.add('%s>function' % path[-1])
     walk_prog(prog, visit)
     return devs, where, nest, kinds
 
